@@ -108,9 +108,12 @@ Fixpoint lift_free (e : expr) : bool :=
 with lift_free_list (es : exprs) : bool :=
   match es with ENil => true | ECons e r => lift_free e && lift_free_list r end.
 
-(** What the second visit of an already visited lift-free node returns (cf. V.C03.Builder:
-    [fold_neg (residue m)]): all [-c] folded except an outermost one, which is folded by
-    the visit itself.  On lift-free expressions this is simply full folding. *)
+(** One visit of [ExprBuilder] over a lift-free node: every [-c] whose operand is a constant *at
+    the time of the visit* is replaced by the constant (children are rewritten in place first,
+    but the [match] on the operand is done before them, so [-(-2)] becomes [-(C -2)], not [2]).
+    The middle operand of a chained comparison is shared by two Compare nodes and visited twice:
+    the first comparison gets [fold_neg m], the second [fold_neg (fold_neg m)] (e.g. [a < -(-2) < b]
+    is built as [a < -(-2)] and [2 < b]; found by the tie under VERIF_SEED=9). *)
 Fixpoint fold_neg (e : expr) : expr :=
   match e with
   | EConst _ | EName _ => e
@@ -291,7 +294,7 @@ with build_ctail (l' : expr) (rest : ctail) (bb : nat) (extra : option nat) (t f
         LET ex <- match extra with Some x => ret x | None => new_bb end IN
         LET r2 <- build_expr m bb IN
         DO close_branch (snd r2) (ECmp l' (CLast op (fst r2))) f ex THEN
-        build_ctail (fold_neg m) rest' ex None t f
+        build_ctail (fold_neg (fold_neg m)) rest' ex None t f
       else fail ErrUnmodelled
   end
 with build_branch (e : expr) (bb t f : nat) {struct e} : M unit :=
